@@ -66,6 +66,9 @@ pub struct Plan {
     pub enumerate_faults: bool,
     pub ranges_per_file: u32,
     pub range_seed: u64,
+    /// C11 only: instead of a world of sessions, concurrent callers of one shard manager (engines/mgrmt.rs)
+    #[serde(default)]
+    pub mgr: Option<crate::engines::mgrmt::MgrPlan>,
 }
 
 pub fn make_pool(p: &Plan) -> Vec<Vec<u8>> {
@@ -149,6 +152,7 @@ pub fn gen(seed: u64, run: u64, focus: &str, tier: Tier) -> Plan {
         enumerate_faults: false,
         ranges_per_file: if focus == "C01" { rng.range(2, 8) as u32 } else { rng.range(0, 2) as u32 },
         range_seed: rng.next_u64(),
+        mgr: None,
     };
     // approximate pool size (number of atoms) without building it
     let approx_atoms: u32 = match pool_kind {
@@ -324,6 +328,14 @@ pub fn gen(seed: u64, run: u64, focus: &str, tier: Tier) -> Plan {
             plan.enumerate_faults = true;
         },
         _ => {},
+    }
+    if focus == "C11" {
+        let mut mrng = Rng::stream(seed, run, "session-mgr");
+        if mrng.chance(1, 5) {
+            plan.sessions.clear();
+            plan.mgr = Some(crate::engines::mgrmt::gen_mgr(&mut mrng));
+            return plan;
+        }
     }
     // another process sharing a shard cache directory: one session in five (never in the fault-enumerating runs)
     if focus != "C16" && plan.sessions.len() >= 2 {
@@ -1396,6 +1408,10 @@ impl Engine for SessionEngine {
     fn execute(&self, plan: &Value, focus: &str) -> RunReport {
         let p: Plan = serde_json::from_value(plan.clone()).expect("session plan");
         let mut rep = RunReport::default();
+        if let Some(m) = &p.mgr {
+            crate::engines::mgrmt::run_mgr(m, &mut rep);
+            return rep;
+        }
         let n_files: usize = p.sessions.iter().map(|s| s.files.len()).sum();
         let (n_put, n_shard, n_query) = run_once(&p, &p.faults, &mut rep);
         if p.enumerate_faults && p.faults.is_empty() && rep.violations.iter().all(|v| v.property != focus) {
@@ -1568,12 +1584,13 @@ impl Engine for SessionEngine {
             "C16" => "an injected store failure fired while another store call was in flight",
             _ => "at least two files with more than one feed call overlapped in event-sequence time and at least one dedup hit lay on a downloaded file's path",
         };
-        format!("Each run: 1-4 upload sessions x 1-8 concurrently cleaned files against one simulated store (real LocalClient behind gates) with seeded contents from an atom pool (twins, extensions, recombinations, in-file repeats, fragmentation patterns, degenerate sizes), seeded feed partitions, seeded latency of every store call on the paused clock, per-process seeded size-limit configuration; all oracles of the session family are evaluated after the run. Non-trivial: {nt}. Distinct: hash of (latency mode, per-session file/put/shard counts, order of store-call completions).")
+        let mgr = if focus == "C11" { " One C11 run in five instead drives one ShardFileManager from 2-4 concurrent callers (OS threads with their own runtimes under the cooperative one-thread-at-a-time scheduler, switching at the shard write-out points, between operations and whenever a caller finds a lock held): adds of xorb and file records, flushes (explicit and size-triggered) and queries; every record whose add returned Ok must be in a shard file of the directory after the final flush and be found by the manager (non-trivial there: a caller found a lock held and at least two shards were written)." } else { "" };
+        format!("Each run: 1-4 upload sessions x 1-8 concurrently cleaned files against one simulated store (real LocalClient behind gates) with seeded contents from an atom pool (twins, extensions, recombinations, in-file repeats, fragmentation patterns, degenerate sizes), seeded feed partitions, seeded latency of every store call on the paused clock, per-process seeded size-limit configuration; one session in eight (C11: one in four) runs as another process sharing the shard-cache directory (own manager objects; its shard files appear in the shared directory afterwards); all oracles of the session family are evaluated after the run.{mgr} Non-trivial: {nt}. Distinct: hash of (latency mode, per-session file/put/shard counts, order of store-call completions).")
     }
     fn real_vs_stub(&self) -> Value {
         json!({
             "real": ["data::FileUploadSession / SingleFileCleaner / FileDownloader / PointerFile", "deduplication::{Chunker, FileDeduper, DataAggregator, defrag prevention}", "data::shard_interface + mdb_shard::{ShardFileManager, shard format, consolidation}", "cas_client::LocalClient (xorb serialisation, shard registration, LMDB global-dedup table)", "cas_object validators", "tokio runtime, semaphores, join sets"],
-            "simulated": ["latency, completion order and failure of store calls (SimStore gates on tokio's paused clock)", "interleaving of add_data calls of concurrently cleaned files", "wall clock (H6)", "hand-over of a global-dedup shard into the client's cache directory"],
+            "simulated": ["latency, completion order and failure of store calls (SimStore gates on tokio's paused clock)", "another process sharing the shard-cache directory", "C11 manager mode: OS-thread interleaving of concurrent manager callers (cooperative scheduler)", "interleaving of add_data calls of concurrently cleaned files", "wall clock (H6)", "hand-over of a global-dedup shard into the client's cache directory"],
             "not_run": ["RemoteClient/HTTP", "hf_xet bindings"]
         })
     }
